@@ -1922,7 +1922,8 @@ func (schema *Schema) visitJSONObject(settings *schemaValidationSettings, value 
 
 			if f := settings.defaultsSet; f != nil && value[propName] == nil {
 				if dflt := propSchema.Value.Default; dflt != nil && !reqRO && !repWO {
-					value[propName] = dflt
+					// a copy: nested defaults are filled into it, and the document is shared between validations
+					value[propName] = deepcopy.Copy(dflt)
 					settings.onceSettingDefaults.Do(f)
 				}
 			}
